@@ -12,7 +12,7 @@ func init() {
 		ID:         "C21",
 		Level:      "other",
 		Technique:  "scanner-to-automaton abstract interpretation + language equivalence with the RFC 8259 number grammar; finite case analysis of the string scanners' and of the token-sequencing switch's conditions (static)",
-		Explain:    "Decides structural necessary conditions of `protojson speaks exactly JSON`: (1) the number scanner of the JSON tokenizer accepts exactly RFC 8259 `number` (automaton extracted from the source by abstract interpretation and compared for language inclusion both ways with the grammar), with no out-of-range index possible; (2) by finite case analysis of the string scanners' switch conditions: the decoder rejects every raw control character and invalid UTF-8 byte, accepts exactly the escape letters \"\\/bfnrtu with their RFC values, and requires a \\u escape for the low half of a surrogate pair; the encoder escapes every character JSON requires, with a letter that denotes it or a \\u followed by exactly four hex digits, and reports invalid UTF-8; (3) the token-sequencing switch of Decoder.Read, evaluated for every feasible (previous token, innermost open container) state and every next token kind, accepts exactly the JSON follow relation (values, names, commas, closing brackets, end of input).",
+		Explain:    "Decides structural necessary conditions of `protojson speaks exactly JSON`: (1) the number scanner of the JSON tokenizer accepts exactly RFC 8259 `number` (automaton extracted from the source by abstract interpretation and compared for language inclusion both ways with the grammar), with no out-of-range index possible; (2) by finite case analysis of the string scanners' switch conditions: the decoder rejects every raw control character and invalid UTF-8 byte, accepts exactly the escape letters \"\\/bfnrtu with their RFC values, and requires a \\u escape for the low half of a surrogate pair; the encoder escapes every character JSON requires, with a letter that denotes it or a \\u followed by exactly four hex digits, and reports invalid UTF-8; (3) the token-sequencing switch of Decoder.Read, evaluated for every feasible (previous token, innermost open container) state and every next token kind, accepts exactly the JSON follow relation (values, names, commas, closing brackets, end of input). Also: the encoder accepts an indent only if it consists of JSON whitespace (strings.Trim with a cutset of space/tab/LF/CR).",
 		NotCovered: "literals true/false/null and whitespace skipping in parseNext, the `:` after a name beyond its presence test, Multiline/Indent equivalence of outputs, and the hex-digit check inside \\u (delegated to strconv.ParseUint).",
 		Quick:      all("./internal/encoding/json"),
 		Thorough:   all("./..."),
@@ -26,9 +26,9 @@ func init() {
 	register(&Property{
 		ID:         "C22",
 		Level:      "other",
-		Technique:  "scanner-to-automaton abstract interpretation + language equivalence; SSA width-provenance dataflow; kind-context table conformance; linear-form verification of the integer digit shifting; who-may-produce rule for numeric values (static)",
-		Explain:    "Decides structural necessary conditions of exact JSON scalar decoding: (1) parseNumberParts, which splits a number into sign/integer/fraction/exponent for exact integer conversion, accepts exactly the RFC 8259 number language (same automaton comparison as the tokenizer's scanner, so both agree on what a number is); (2) no float32 value is produced by parsing at width 64 and narrowing (double rounding), the bitSize is threaded and guarded; (3) in every Kind-dependent branch of the JSON encoder and decoder the bitSize constants, Value constructors/accessors and writer methods match the Kind per the proto3 JSON table (32-bit integers as numbers, 64-bit integers as strings, width 32 for float); (4) normalizeToIntString's digit shifting, as linear forms over the part lengths: non-integers rejected exactly by F > E (E ≥ 0) or F > 0 / a non-zero cut digit (E < 0), E - F zeros appended, and the digit-count rejection never exceeds the number of significant digits (it must discount the leading zeros of the fraction when the integer part is 0) with a bound ≥ 20; (5) the numeric unmarshal helpers produce values only through json.Token.Int/Uint/Float — a quoted number is re-tokenised by the JSON reader with an EOF check, never handed to strconv, so quoted and bare numbers obey the same grammar.",
-		NotCovered: "the range checks inside strconv; that parseNumberParts stores an empty integer part for 0 and trims the fraction's trailing zeros (assumed by R-INTSTRING-SHIFT); base64 variant acceptance; enum name/number lookup.",
+		Technique:  "scanner-to-automaton abstract interpretation + language equivalence; SSA width-provenance dataflow; kind-context table conformance; linear-form verification of the integer digit shifting; who-may-produce rule for numeric values; finite case analysis of the base64 selection; dominance rule for parse width (static)",
+		Explain:    "Decides structural necessary conditions of exact JSON scalar decoding: (1) parseNumberParts, which splits a number into sign/integer/fraction/exponent for exact integer conversion, accepts exactly the RFC 8259 number language (same automaton comparison as the tokenizer's scanner, so both agree on what a number is); (2) no float32 value is produced by parsing at width 64 and narrowing (double rounding), the bitSize is threaded and guarded; (3) in every Kind-dependent branch of the JSON encoder and decoder the bitSize constants, Value constructors/accessors and writer methods match the Kind per the proto3 JSON table (32-bit integers as numbers, 64-bit integers as strings, width 32 for float); (4) normalizeToIntString's digit shifting, as linear forms over the part lengths: non-integers rejected exactly by F > E (E ≥ 0) or F > 0 / a non-zero cut digit (E < 0), E - F zeros appended, and the digit-count rejection never exceeds the number of significant digits (it must discount the leading zeros of the fraction when the integer part is 0) with a bound ≥ 20; (5) the numeric unmarshal helpers produce values only through json.Token.Int/Uint/Float — a quoted number is re-tokenised by the JSON reader with an EOF check, never handed to strconv, so quoted and bare numbers obey the same grammar. Also: a number parsed by Token.Int/Uint for k bits is narrowed to w bits only where k <= w (constant, or dominated by bitSize == w), and unmarshalBytes, evaluated over its two atoms, selects the base64 alphabet and the padding independently (four combinations).",
+		NotCovered: "the range checks inside strconv; that parseNumberParts stores an empty integer part for 0 and trims the fraction's trailing zeros (assumed by R-INTSTRING-SHIFT); acceptance of non-canonical base64 by encoding/base64; enum name lookup.",
 		Quick:      all("./encoding/protojson"),
 		Thorough:   all("./..."),
 		Run: func(c *Ctx) {
@@ -45,7 +45,7 @@ func init() {
 		ID:         "C23",
 		Level:      "other",
 		Technique:  "scanner-to-automaton abstract interpretation + language equivalence with the documented Duration grammar; CFG dominance of range comparisons and of the FieldMask reversibility test; interval arithmetic on integer products; dispatch-table agreement (static)",
-		Explain:    "Decides structural necessary conditions of the well-known-type JSON forms: (1) parseDuration accepts exactly the documented Duration grammar (optional sign, integer and/or fractional part with at most nine digits, suffix s; at least one digit) — automaton extracted from the source and compared both ways with the grammar, no out-of-range index; (2) Duration and Timestamp seconds/nanos are compared with both documented bounds before any JSON is written and before any parsed value is stored; (3) the encoder and decoder dispatch tables for well-known types cover the same message names and pair marshalX with unmarshalX; (4) no product of 64-bit integers in the Duration/Timestamp conversions can exceed int64 for in-range field values (interval arithmetic over the documented ranges); (5) the FieldMask writer emits a converted path only where it has established that the reader's conversion maps it back to the stored path.",
+		Explain:    "Decides structural necessary conditions of the well-known-type JSON forms: (1) parseDuration accepts exactly the documented Duration grammar (optional sign, integer and/or fractional part with at most nine digits, suffix s; at least one digit) — automaton extracted from the source and compared both ways with the grammar, no out-of-range index; (2) Duration and Timestamp seconds/nanos are compared with both documented bounds before any JSON is written and before any parsed value is stored; (3) the encoder and decoder dispatch tables for well-known types cover the same message names and pair marshalX with unmarshalX; (4) no product of 64-bit integers in the Duration/Timestamp conversions can exceed int64 for in-range field values (interval arithmetic over the documented ranges); (5) the FieldMask writer emits a converted path only where it has established that the reader's conversion maps it back to the stored path. Also: the helpers the WKT functions call are included in the overflow analysis and an unbounded digit accumulator is a violation; NullValue is excluded before an enum is written as number or name.",
 		NotCovered: "the Timestamp grammar (delegated to time.Parse, see DESIGN.md §5 N1), the Duration sign test itself and the digit formatting on values, Struct/Value/ListValue/Any conversions.",
 		Quick:      all("./encoding/protojson"),
 		Thorough:   all("./..."),
